@@ -48,8 +48,14 @@ def run(ctx, replay):
     # M: the reference merge is insensitive to grouping / repeated compaction, for every field type
     ctx.model_check("MCMetricData", "MCMetricData.cfg", timeout=900)
     ctx.model_check("MCMetricData", "MCMetricData_b.cfg", timeout=900)
+    # the reference does not depend on the magnitude of slot numbers (two slots far apart, beyond the 360-slot blocks)
+    ctx.model_check("MCMetricData", "MCMetricData_w.cfg", timeout=900)
     tr = run_mdata(ctx, ["--compact", 400 if thorough else 60, "--rollup", 0], "compact")
     if tr is None:
+        return
+    # wide slot ranges (families of 1s / 1m type intervals: block and union ranges of 359..4000 slots, sparse cells)
+    trw = run_mdata(ctx, ["--compact", 0, "--wide", 240 if thorough else 32, "--rollup", 0], "wide")
+    if trw is None:
         return
 
     def lose_cell(lines):
@@ -78,9 +84,42 @@ def run(ctx, replay):
                                 out[i] = json.dumps(d, separators=(",", ":")) + "\n"
                                 return out
         return None
+    def empty_slot_reads_zero(lines):
+        # a slot without a value inside a wide block reads 0 after the compaction
+        for i, ln in enumerate(lines):
+            if '"ev":"After"' in ln:
+                d = json.loads(ln)
+                for m in d["blocks"]:
+                    for b in d["blocks"][m]:
+                        have = set((c[0], c[1], c[2]) for c in b)
+                        hi = max([c[2] for c in b] or [0])
+                        for c in b:
+                            if c[2] + 1 < hi and (c[0], c[1], c[2] + 1) not in have:
+                                b.append([c[0], c[1], c[2] + 1, 0])
+                                out = list(lines)
+                                out[i] = json.dumps(d, separators=(",", ":")) + "\n"
+                                return out
+        return None
+
+    def min_with_zero(lines):
+        # a min cell aggregated with a 0 that nobody wrote
+        for i, ln in enumerate(lines):
+            if '"ev":"After"' in ln:
+                d = json.loads(ln)
+                for m in d["blocks"]:
+                    for b in d["blocks"][m]:
+                        for c in b:
+                            if c[1] == 2 and c[3] != 0:  # the min field
+                                c[3] = 0
+                                out = list(lines)
+                                out[i] = json.dumps(d, separators=(",", ":")) + "\n"
+                                return out
+        return None
+    vcore.corrupt_selftest(ctx, "MetricDataTrace", "MetricDataTrace.cfg", trw, empty_slot_reads_zero, "an empty slot of a wide block reads 0 after compaction")
+    vcore.corrupt_selftest(ctx, "MetricDataTrace", "MetricDataTrace.cfg", trw, min_with_zero, "a min cell of a wide block is aggregated with 0")
     vcore.corrupt_selftest(ctx, "MetricDataTrace", "MetricDataTrace.cfg", tr, lose_cell, "a cell disappears in the compaction output")
     vcore.corrupt_selftest(ctx, "MetricDataTrace", "MetricDataTrace.cfg", tr, wrong_sum, "a sum cell is off by one after compaction")
     ctx.assumptions += [
-        "values are integral float64 (exact aggregation), slots 0..11, series ids from a pool that crosses the 65536 container boundaries",
+        "values are integral float64 (exact aggregation), slots 0..11 (compact histories) and sparse cells in slot ranges of 359..4000 slots (wide histories: slot universes 720 / 1440 / 3600 / 4000, block ranges and union ranges around and above the 360-slot block of the merger's accumulator, 2 metrics x 2-4 series x 2-5 fields), series ids from a pool that crosses the 65536 container boundaries",
         "blocks are written with the real metricsdata.Flusher through a real kv flusher, compacted by Family.Compact() with the registered MetricDataMerger, and read back with Snapshot.Load + metricsdata.NewReader + the query data loader",
     ]
